@@ -514,7 +514,8 @@ def r03_4_5(rep: Report) -> None:
                  '(the handler resets tfhd/saio only when told the traf changed)', ut)
     # fragments are opened read-write (the edit API refuses read-only trees)
     lf = need(find_func(cls, 'load_fragment'), 'load_fragment')
-    if "mode='rw'" in norm(lf):
+    from .c10 import load_fragment_facts
+    if load_fragment_facts(lf)['modes'] == {'rw'}:
         rep.ok('R03.5', f'{MR}::MediaRequestBase.load_fragment', "mp4.Options(mode='rw')")
     else:
         rep.fail('R03.5', f'{MR}::MediaRequestBase.load_fragment', "mp4.Options(mode='rw')",
